@@ -411,6 +411,20 @@ Proof.
       * intros b [Hb|Hb]; [left; exact Hb | right; apply IH2; exact Hb].
 Qed.
 
+Lemma flat_map_filter {A B} (g : A -> list B) (Q : A -> bool) l :
+  flat_map g (filter Q l) = flat_map (fun x => if Q x then g x else []) l.
+Proof.
+  induction l as [|x t IH]; simpl; [reflexivity|]. destruct (Q x); simpl; rewrite IH; reflexivity.
+Qed.
+
+Lemma in_rerun_new now owners l r :
+  In r (flat_map (rerun_one now owners) (filter (rerun_live owners) (filter (due now) l))) ->
+  exists r0, In r0 l /\ due now r0 = true /\ rerun_live owners r0 = true /\ In r (rerun_one now owners r0).
+Proof.
+  intros H. apply in_flat_map in H as [r0 [H0 H]]. apply filter_In in H0 as [H0 HL].
+  apply filter_In in H0 as [H0 HD]. exists r0. auto.
+Qed.
+
 Lemma rerun_one_shape now owners r0 :
   rerun_one now owners r0 = [] \/ exists y, rerun_one now owners r0 = [y].
 Proof.
@@ -432,12 +446,13 @@ Lemma mid_inv now z s2 s3 p e :
   Mid now z s2 -> rerun_phase now s2 = (s3, p, e) -> Inv (ip_phase now s3).
 Proof.
   intros [Hc Hr Hd Hi Ho H1 Ht] E. unfold rerun_phase in E. injection E as E1 E2 E3. subst s3 p e.
-  set (new := flat_map (rerun_one now (st_owners s2)) (filter (due now) (st_retrans s2))).
+  set (new := flat_map (rerun_one now (st_owners s2))
+                       (filter (rerun_live (st_owners s2)) (filter (due now) (st_retrans s2)))).
   set (s3 := set_sched s2 _ _ _).
   destruct (ip_phase_frame now s3) as [F1 [F2 [F3 [F4 [F5 F6]]]]].
   assert (Hnew : forall r, In r new -> 1 <= r_delay r /\ now < r_time r /\ In (r_time r) (map r_time new)).
-  { intros r H. pose proof H as Hin. unfold new in H. apply in_flat_map in H as [r0 [H0 H]].
-    apply filter_In in H0 as [H0 _]. apply in_rerun_one in H as [-> _]. simpl.
+  { intros r H. pose proof H as Hin. unfold new in H. apply in_rerun_new in H as [r0 [H0 [_ [_ H]]]].
+    apply in_rerun_one in H as [-> _]. simpl.
     destruct (Hr r0 H0) as [A _]. split; [apply spec_next_delay_pos; exact A|]. split; [lia|].
     apply in_map_iff. eexists. split; [|exact Hin]. reflexivity. }
   constructor.
@@ -459,10 +474,11 @@ Proof.
         { apply N.leb_gt in E2. split; [intros H; contradiction|]. intros _. rewrite Hc. split; [exact E2|].
           apply in_or_app. right. destruct Hi as [A|[A|A]]; [contradiction | lia | exact A]. }
   - rewrite F3. simpl. exact Ho.
-  - rewrite F2. simpl.
-    apply (nodup_partition_map rkey (due now) (rerun_one now (st_owners s2)) (st_retrans s2)).
-    + intros x y H. apply rkey_rerun_one in H. exact H.
-    + intros x. apply rerun_one_shape.
+  - rewrite F2. simpl. unfold new. rewrite flat_map_filter.
+    apply (nodup_partition_map rkey (due now)
+             (fun x => if rerun_live (st_owners s2) x then rerun_one now (st_owners s2) x else []) (st_retrans s2)).
+    + intros x y H. destruct (rerun_live (st_owners s2) x); [|contradiction]. apply rkey_rerun_one in H. exact H.
+    + intros x. destruct (rerun_live (st_owners s2) x); [apply rerun_one_shape | left; reflexivity].
     + exact H1.
 Qed.
 
@@ -473,11 +489,12 @@ Lemma mid_timers_future now z s2 s3 p e :
 Proof.
   intros [Hc Hr Hd Hi Ho H1 Ht] E. unfold rerun_phase in E. injection E as E1 E2 E3. subst s3 p e.
   assert (Hbase : forall t,
-     In t (map r_time (flat_map (rerun_one now (st_owners s2)) (filter (due now) (st_retrans s2))) ++ st_timers s2) ->
+     In t (map r_time (flat_map (rerun_one now (st_owners s2))
+                         (filter (rerun_live (st_owners s2)) (filter (due now) (st_retrans s2)))) ++ st_timers s2) ->
      now < t \/ (z = true /\ t = now)).
   { intros t H. apply in_app_or in H as [H|H]; [|auto].
-    apply in_map_iff in H as [r [H2 H]]. apply in_flat_map in H as [r0 [H0 H]].
-    apply filter_In in H0 as [H0 _]. apply in_rerun_one in H as [-> _]. simpl in H2. subst t.
+    apply in_map_iff in H as [r [H2 H]]. apply in_rerun_new in H as [r0 [H0 [_ [_ H]]]].
+    apply in_rerun_one in H as [-> _]. simpl in H2. subst t.
     destruct (Hr r0 H0) as [A _]. left. lia. }
   unfold ip_phase. unfold ip_check_disabled, ip_check_unarmed, ip_check_due,
       ip_check_rearm_time, ip_check_next_time. simpl.
